@@ -212,4 +212,6 @@ def panel (f : Feat) : Panel :=
     prog := prog f,
     ctrl := .ssd (Ssd.por false 20 296) }
 
+attribute [driver_simp] W setBit setBits driverOutputBytes duc2New disableClock disableAnalog display enableClock enableAnalog borderWaveForm vcom gateDrivingDecivolt sourceDrivingDecivolt withV setGateScanStartPosition setBorderWaveform setVcomRegister setGateDrivingVoltage setSourceDrivingVoltage setDummyLinePeriod setGateLineWidth setDisplayUpdateControl2 setSleepMode setDataEntryMode setRamArea setRamAddressCounters fullArea bufferLen lutFull lutPartial setLut init setPartialBaseBuffer updateFrame displayFrame prog
+
 end EpdVerif.Drivers.Epd2in13_v2
